@@ -704,7 +704,11 @@ pub fn cmd_check(args: &Args) -> i32 {
             println!("note: {}", n);
         }
     }
-    let runs = args.runs.unwrap_or_else(|| default_runs(prop.id(), &args.tier));
+    let mut runs = args.runs.unwrap_or_else(|| default_runs(prop.id(), &args.tier));
+    if seam_note.is_some() && args.runs.is_none() {
+        // a process spawn per run: a fifth of the usual budget keeps the tier's duration
+        runs /= 5;
+    }
     println!(
         "check {} tier={} VERIF_SEED={} runs={} threads={}",
         prop.id(),
